@@ -48,6 +48,7 @@ type Item struct {
 	Variants []VariantStatus `json:"variants"`
 	Mode     string          `json:"mode"`
 	Print    bool            `json:"print"` // also capture PrintSyntaxTree on stdout
+	Entries  []string        `json:"entries,omitempty"` // entry rules to use (default: every rule)
 	// history mode
 	Depth int      `json:"depth,omitempty"`
 	Sizes []int    `json:"sizes,omitempty"`
